@@ -143,10 +143,13 @@ def digest_of(x) -> str:
 
 
 def tensor_digest(t) -> str:
-    """Bit-exact digest of a torch tensor (dtype, shape, bytes)."""
+    """Bit-exact digest of a torch tensor (dtype, shape, bytes; NaNs canonicalised)."""
     import torch
 
     tt = t.detach().cpu().contiguous()
+    if tt.dtype.is_floating_point and tt.numel() and bool(torch.isnan(tt).any()):
+        # every NaN is the same value: sign and payload bits (which a text round trip does not keep) are dropped
+        tt = torch.where(torch.isnan(tt), torch.full_like(tt, float("nan")), tt)
     h = hashlib.sha256()
     h.update(str(tt.dtype).encode())
     h.update(str(tuple(tt.shape)).encode())
